@@ -184,6 +184,18 @@ def matrix_route(ctx, res):
         psi = rng.choice([None, 1, (1, 0, 0, 1), (0, 1, 1, 0), (2, 0, 0, 0), (0, 0, 0, 2), (1, 2, 0, 0), (0, 0, 2, 1)])
         st = {"window": rng.choice([None, 1, 2, 3]), "penalty": rng.choice([None, 1, 2]), "psi": psi,
               "max_step": rng.choice([None, None, 3]), "inner": "sq"}
+        if _ % 4 == 1:
+            # no window, lengths ascending, steps at very different positions: each pair needs its own full band (a
+            # setting computed for the first, short pair must not be reused for the later, long ones)
+            equal = False
+            lens = sorted(rng.choice([2, 3, 3, 9, 12, 14, 14]) for _i in range(n))
+            series = []
+            for l in lens:
+                a_ = rng.randint(1, max(1, l - 1))
+                series.append([v for k_ in range(l) for v in [(0 if k_ < a_ else 5)] * nd])
+            st = {"window": None, "penalty": None, "psi": None, "max_step": None, "inner": "sq"}
+            psi = None
+            res.hit("matrix_route_no_window_ascending_lengths")
         if psi is not None:
             bad = False
             for a in series:
